@@ -31,6 +31,13 @@ def cells(tier):
                 acts = ra + [[GAC, A("Z", 1), M("Y", 1, 1)]] + ([[UNTIL]] if un else [])
                 sc = scen(pool(size), acts, outcomes=["ret"], ecb="plain", ccb="plain")
                 out.append(cell(f"s{size} {rn} gac+after{' until' if un else ''}", sc, MON))
+    # a task that cancels its own group (or everything) from its own code, in its first step or later, before the close
+    for size in [1, 2]:
+        for rn, ra in {"A2": [A("A", 2)], "M3/2": [M("A", 3, 2)]}.items():
+            for on, o in {"cgroup": cgroup("A"), "call": CALL}.items():
+                sc = scen(pool(size), [ra, [GAC], [o]], outcomes=["ret"], ecb="plain", ccb="plain",
+                          inline={"actors": [2], "at": ["w_start", "w_resume"]})
+                out.append(cell(f"inline s{size} {rn} {on}@w_start/w_resume gac", sc, MON))
     # cancellations with the optional msg argument (also of tasks that have not had their first step) before the close
     for size in [1, 2]:
         sc = scen(pool(size), [[A("A", 2)], [["cancel", rid("A", 1), {"msg": "why"}]], [GAC], [UNTIL]], outcomes=["ret"], ecb="plain", ccb="plain")
